@@ -13,6 +13,7 @@ Unitarity and the group property D(R1) D(R2) = D(R1 R2) are properties of the ex
 the code's matrices because these are proved equal to them entry by entry (for the spins covered).
 The checker's reference formula is itself cross-checked against sympy.physics.quantum.spin.Rotation.d on every run.
 """
+import numpy as np
 import sympy as sp
 
 from ..model import AnalysisError
@@ -59,8 +60,24 @@ def check_wigner(repo, chk, tier):
     chk.rule("E6-wigner", "small_d_matrix(theta, 2j) equals the exact Wigner d^j_{m m'}(theta) entry by entry (table generator constant-folded, polynomial identity in cos/sin of theta/2), and d d^T = 1, for 2j = 0..%d" % (4 if tier == "quick" else 8))
     chk.rule("E6-Dconj", "D_matrix_conj(alpha, beta, gamma, 2j)[a][b] == exp(i m_a alpha) d^j_{ab}(beta) exp(i m_b gamma) for 2j = 0..3")
     TH, AL, GA = sp.symbols("TH AL GA", real=True)
-    S, C = sp.symbols("S C", positive=True)
+    # sin / cos of theta / 2 as free REAL quantities: the property quantifies over all angles (a negative beta is the
+    # inverse rotation), so neither is assumed positive
+    S, C = sp.symbols("S C", real=True)
     _selftest(C, S)
+
+    def clip_first(tr, d_, args, kwargs, n):
+        # tf.clip_by_value(x, lo, hi) / np.clip: element-wise max(lo, min(hi, x)), kept symbolic
+        if d_.split(".")[-1] in ("clip_by_value", "clip") and len(args) >= 3:
+            lo, hi = sp.sympify(args[1]), sp.sympify(args[2])
+            f_ = lambda x: sp.Max(lo, sp.Min(hi, sp.sympify(x)))
+            x = args[0]
+            if isinstance(x, np.ndarray):
+                out = np.empty(x.shape, dtype=object)
+                for idx in np.ndindex(x.shape):
+                    out[idx] = f_(x[idx])
+                return out
+            return f_(x)
+        return NotImplemented
 
     def trig(kind):
         def f(tr, a):
@@ -69,7 +86,7 @@ def check_wigner(repo, chk, tier):
             return sp.cos(a) if kind == "cos" else sp.sin(a)
         return f
 
-    hooks = {"stack_as_array": True, "concrete_zeros": True, "unary:cos": trig("cos"), "unary:sin": trig("sin")}
+    hooks = {"stack_as_array": True, "concrete_zeros": True, "unary:cos": trig("cos"), "unary:sin": trig("sin"), "numeric_call_first": clip_first}
     sd = repo.fn(DF + "small_d_matrix")
     dc = repo.fn(DF + "D_matrix_conj")
     jmax = 4 if tier == "quick" else 8
